@@ -1,38 +1,46 @@
 #!/usr/bin/env python3
-"""Copies the sub-agents' seeded changes into /verif/seeded/<ID>-<k>/ (patch.diff, demonstration, meta.json) and records which of
-our checks detected them (from the result files written by tools/seedtest.sh runs).  Usage: keepseeds.py <seedout-dir> <results...>"""
+"""Copies the sub-agents' seeded changes into /verif/seeded/<ID>-<round><k>/ (patch.diff, demonstration, meta.json) and records
+which of our checks detected them (from the result files written by tools/seedtest.sh runs).
+Usage: keepseeds.py <round>=<seedout-dir> [<round>=<dir> ...] -- <result files...>      (later result lines win)"""
 import glob, json, os, re, shutil, sys
 
 V = os.path.dirname(os.path.dirname(os.path.abspath(__file__)))
-src = sys.argv[1]
+args = sys.argv[1:]
+cut = args.index("--")
+rounds = dict(a.split("=", 1) for a in args[:cut])
 results = {}
-for rf in sys.argv[2:]:
+for rf in args[cut + 1:]:
     for line in open(rf, errors="replace"):
         m = re.match(r"RESULT (\S+)/(C\d+)/(\d) check=(C\d+) exit=(\d+) violations=(\d+)", line)
         if m:
-            _, pid, k, chk, ex, vio = m.groups()
-            results.setdefault((pid, k), {})[chk] = {"exit": int(ex), "violations": int(vio)}      # later files win
+            base, pid, k, chk, ex, vio = m.groups()
+            results.setdefault((os.path.realpath(base), pid, k), {})[chk] = {"exit": int(ex), "violations": int(vio)}
 rows = []
-for d in sorted(glob.glob(os.path.join(src, "C[0-9][0-9]", "[0-9]"))):
-    pid, k = d.split("/")[-2], d.split("/")[-1]
-    if not os.path.exists(os.path.join(d, "patch.diff")):
-        continue
-    dst = os.path.join(V, "seeded", "%s-%s" % (pid, k))
-    os.makedirs(dst, exist_ok=True)
-    for f in os.listdir(d):
-        if f.startswith(("patch.diff", "demo", "meta.json")) and os.path.getsize(os.path.join(d, f)) < 200000:
-            shutil.copy(os.path.join(d, f), os.path.join(dst, f))
-    meta = {}
-    try:
-        meta = json.load(open(os.path.join(d, "meta.json")))
-    except Exception:
-        pass
-    res = results.get((pid, k), {})
-    det = sorted(c for c, r in res.items() if r["exit"] == 1)
-    meta.update({"breaks_property": pid, "our_runs": res, "detected_by": det,
-                 "confirmed": "patch applied to a scratch copy of /repo HEAD by tools/seedtest.sh; cargo test --offline passed 450/450 there; then the named checks were run against the copy"})
-    json.dump(meta, open(os.path.join(dst, "meta.json"), "w"), indent=1)
-    rows.append((pid, k, (meta.get("summary") or "")[:150].replace("\n", " ").replace("|", "/"), ", ".join("%s:%s" % (c, "DETECTED" if r["exit"] == 1 else "tool-error" if r["exit"] == 2 else "missed") for c, r in sorted(res.items())) or "not run"))
-print("| seed | change | result |\n|---|---|---|")
-for pid, k, summ, r in rows:
-    print("| %s-%s | %s | %s |" % (pid, k, summ, r))
+for rnd, src in sorted(rounds.items()):
+    for d in sorted(glob.glob(os.path.join(src, "C[0-9][0-9]", "[0-9]"))):
+        pid, k = d.split("/")[-2], d.split("/")[-1]
+        if not os.path.exists(os.path.join(d, "patch.diff")):
+            continue
+        name = "%s-%s%s" % (pid, rnd, k)
+        dst = os.path.join(V, "seeded", name)
+        os.makedirs(dst, exist_ok=True)
+        for f in os.listdir(d):
+            if f.startswith(("patch.diff", "demo", "meta.json")) and os.path.isfile(os.path.join(d, f)) and os.path.getsize(os.path.join(d, f)) < 200000:
+                shutil.copy(os.path.join(d, f), os.path.join(dst, f))
+        meta = {}
+        try:
+            meta = json.load(open(os.path.join(d, "meta.json")))
+        except Exception:
+            pass
+        res = results.get((os.path.realpath(src), pid, k), {})
+        det = sorted(c for c, r in res.items() if r["exit"] == 1)
+        meta.update({"breaks_property": pid, "round": rnd, "our_runs": res, "detected_by": det,
+                     "confirmed": "patch applied to a scratch copy of /repo HEAD by tools/seedtest.sh; cargo test --offline passed 450/450 there; then the named checks were run against the copy"})
+        json.dump(meta, open(os.path.join(dst, "meta.json"), "w"), indent=1)
+        summ = (meta.get("summary") or "")
+        if not isinstance(summ, str):
+            summ = json.dumps(summ)
+        rows.append((name, summ[:170].replace("\n", " ").replace("|", "/"), ", ".join("%s: %s" % (c, "DETECTED" if r["exit"] == 1 else "tool-error" if r["exit"] == 2 else "missed") for c, r in sorted(res.items())) or "not run"))
+print("| seed | change | quick check(s) run on the changed tree |\n|---|---|---|")
+for name, summ, r in rows:
+    print("| %s | %s | %s |" % (name, summ, r))
